@@ -99,6 +99,17 @@ func init() {
 		md, mruns := c08MethodScenarios(o.seed)
 		st.Inconsistent = append(st.Inconsistent, md...)
 		st.MethodRuns = mruns
+		// gen_cov.go: servers built with the library's defaults (no proof resolver: validator.ProofUnavailable) given
+		// invocations whose proof travels inline, is only cited by link, or sits next to a dangling link
+		for _, b := range covBatches(o.seed, n) {
+			if err := b.W.Build(); err != nil {
+				return err
+			}
+			obs := b.Run(nil)
+			st.add(b, obs)
+			labels[b.ID] = b.Label
+			cases = append(cases, b.Coq(obs))
+		}
 		if err := writeBatchCases(o.out, "cases_C08", cases, 16); err != nil {
 			return err
 		}
